@@ -620,8 +620,9 @@ pub fn run_c12(ctx: &mut Ctx) {
         // flush releases the output mutex, unlike a failed write: other writers, management replies and close() must still get through)
         { let nflush = trb.events.iter().filter(|e| e.starts_with("F:")).count();
           let hs_ign: String = plans.iter().map(|p| if p.script == "-" || p.script.starts_with('~') { p.script.clone() } else { format!("~{}", p.script) }).collect::<Vec<_>>().join(";");
-          for i in 0..nflush { for (tag, h) in [("", &hs), ("I", &hs_ign)] {
-              faults.push((format!("flushE{tag}@{i}"), format!("t.run B={b} mc={mc} in={} end=eof rd={rd} wr={wr} fl={} stop=none h={h}", hexd(&wire), set_nth("-", i, "E").replace('A', "O")))); } } }
+          // (the error kind matters here too: a flush error of kind Interrupted is still an error of the transport, not a retry request)
+          for i in 0..nflush { for (tag, h, ek) in [("", &hs, ""), ("I", &hs_ign, ""), ("K", &hs, " ek=i"), ("KA", &hs, " ek=a")] {
+              faults.push((format!("flushE{tag}@{i}"), format!("t.run B={b} mc={mc} in={} end=eof rd={rd} wr={wr} fl={} stop=none h={h}{ek}", hexd(&wire), set_nth("-", i, "E").replace('A', "O")))); } } }
         for (fi, (kind, op)) in faults.iter().enumerate() {
             log.case(&format!("c12-{ci}-{fi}"));
             let o = ex(&mut log, &mut im, op);
